@@ -184,7 +184,13 @@ def r13_alloc_sites(text):
     return text, len(edits)
 
 
+def r14_name_loop_var(text):
+    """R14: `for _ in <range>` -> `for loop_i in <range>` (an invariant needs a name for the counter)."""
+    return re.subn(r'\bfor\s+_\s+in\b', 'for loop_i in', text)
+
+
 GLOBAL_REWRITES = [
+    ('R14 for _ in -> for loop_i in', r14_name_loop_var),
     ('R2 map_err(Ctor)->closure', r2_map_err_ctor),
     ('R2 map(Ctor)->closure', r2b_map_ctor),
     ('R2 closure |e| Details::X(..).into() gets explicit ensures', r2c_closure_into),
@@ -240,6 +246,8 @@ def parse_template(path, seen=None):
                     kind, rest = d.group(1), d.group(2)
                     if kind == 'pre':
                         mode = ('pre', None)
+                    elif kind == 'tail':
+                        mode = ('tail', None)
                     elif kind == 'loop':
                         k = int(rest.strip())
                         fn['loops'][k] = []
@@ -267,6 +275,8 @@ def parse_template(path, seen=None):
                         fn['sig'].append(l2)
                     elif mode[0] == 'pre':
                         fn['pre'].append(l2)
+                    elif mode[0] == 'tail':
+                        fn['post'].append(l2)
                     elif mode[0] == 'loop':
                         fn['loops'][mode[1]].append(l2)
                     elif mode[0] == 'hint':
@@ -313,6 +323,19 @@ def extract_source(fn):
     meta = dict(id=fn['id'], src=fn['opts']['src'], item=fn['opts']['item'], line=f['line'], end_line=f['end_line'],
                 sha256=hashlib.sha256((f['sig'] + '{' + f['body'] + '}').encode()).hexdigest()[:16], kind='fn')
     raw = f['sig'] + ' {' + f['body'] + '}'
+    if 'sub' in fn['opts']:
+        # closure / block lifting: take the brace block that follows the anchor snippet
+        pos = rsx.find_snippet(body, fn['opts']['sub'])
+        if pos is None:
+            raise LostAnchor('%s: sub-block anchor not found: %r' % (fn['id'], fn['opts']['sub']))
+        rest = body[pos[1]:]
+        toks = rsx.sig_tokens(rest)
+        if not toks or toks[0][1] != '{':
+            raise LostAnchor('%s: no block after anchor %r' % (fn['id'], fn['opts']['sub']))
+        c = rsx.match_close(toks, 0)
+        body = rest[toks[0][3]:toks[c][2]]
+        meta['kind'] = 'block'
+        meta['sha256'] = hashlib.sha256(body.encode()).hexdigest()[:16]
     if 'arm' in fn['opts']:
         scr, pat = fn['opts']['arm'].split('=>', 1)
         arm, mt = rsx.find_arm(body, scr.strip(), pat.strip())
@@ -407,7 +430,7 @@ def generate(template, out_verus, out_raw=None, out_meta=None):
         ex = extract_source(fn)
         meta = ex['meta']
         # parameter-name fidelity check
-        if meta['kind'] == 'fn':
+        if meta['kind'] == 'fn' and fn['opts'].get('params', 'check') != 'skip':
             want = fn['params'] or sig_fn_params(fn['sig'])
             have = rsx.param_names(ex['sig'])
             if want != have:
@@ -419,7 +442,7 @@ def generate(template, out_verus, out_raw=None, out_meta=None):
         meta['dropped_hints'] = fn.get('dropped_hints', [])
         meta['contract_lines'] = len([x for x in fn['sig'] if x.strip()])
         start_line = sum(x.count('\n') + 1 for x in out) + 1
-        text = '\n'.join(fn['sig']) + '\n{\n' + '\n'.join(fn['pre']) + '\n' + body + '\n}\n'
+        text = '\n'.join(fn['sig']) + '\n{\n' + '\n'.join(fn['pre']) + '\n' + body + '\n' + '\n'.join(fn['post']) + '\n}\n'
         meta['gen_line_start'] = start_line
         meta['gen_line_end'] = start_line + text.count('\n')
         meta['n_requires'] = len(re.findall(r'\brequires\b', '\n'.join(fn['sig'])))
